@@ -278,6 +278,26 @@ def check(run):
         run.check(ok and bool(deleg), 'R4', 'error-does-not-register', '%s: address_family_not_supported' % f.norm, f.loc(), 'family mismatch can still reach the registry', 'assigned and never reaches io_context::bind')
         setb = [a.site for a in q.field_accesses(f, {B + '::m_bound_to'}) if a.kind == 'assign']
         run.check(bool(setb) and all(any(q.render(f, a) == 'ec' and not p for a, p in q.guards_at(f, s)) for s in setb), 'R5', 'bound-only-on-success', f.norm, f.loc(), 'm_bound_to is set although the registry reported an error', 'm_bound_to set only when !ec')
+    run.clause('one binding per socket: bind(ep, ec) reaches the registry only when the socket holds no binding yet (otherwise the first endpoint stays registered to this socket after close() released the second)')
+    for cls in (T, U):
+        f = [x for x in fx.fn(cls + '::bind', None) if 'error_code' in x.sig][0]
+        run.touch(f)
+        deleg = [c for c in f.calls() if (q.callee_name(c) or '').split('::')[-1] in ('bind_socket', 'bind_udp_socket')]
+        unb = [c for c in f.calls() if (q.callee_name(c) or '').split('::')[-1] in ('unbind_socket', 'unbind_udp_socket')]
+        for c in deleg:
+            okb = False
+            for a_, p_ in q.guards_at(f, c):
+                ca = q.cmp_atom(a_)
+                if not ca:
+                    continue
+                op_ = ca[0] if p_ else q.NEG[ca[0]]
+                tl, tr = q.render(f, ca[1]).replace('this->', ''), q.render(f, ca[2]).replace('this->', '')
+                if op_ == '==' and 'm_bound_to' in (tl, tr) and ('endpoint' in tl + tr):
+                    okb = True
+            okb = okb or (bool(unb) and q.any_precedes(f, unb, c))
+            run.check(okb, 'R5', 'bind-only-when-unbound', f.norm, f.loc(c),
+                      'bind(ep, ec) registers the new endpoint although the socket may already hold a binding (no dominating m_bound_to == endpoint() test, no unbind of the old one): the old registry entry keeps pointing at this socket, close() releases only the new endpoint, and the old one stays taken - and dangling once the socket is destroyed',
+                      'the registry is reached only when m_bound_to is unset')
     run.clause('a moved socket keeps what the registry relies on (family, binding, forwarder): the move constructors transfer every field (shared with C12)')
     import p12 as _p12
     _p12.move_ctor_rules(run, ((T, 'tcp'), (U, 'udp')))
